@@ -7,7 +7,7 @@
 (* trace; the verdict is the set of clauses of the specification the       *)
 (* observation contradicts (empty = the run is a behaviour of the spec).   *)
 (***************************************************************************)
-EXTENDS Codec, TLC, Json, IOUtils
+EXTENDS PlanSpec, TLC, Json, IOUtils
 
 Traces == ndJsonDeserialize(IOEnv.TRACE_FILE)
 
@@ -70,6 +70,8 @@ ParseClauses(T) ==
        \cup (IF Has(T.obs, "layout2") /\ T.obs.layout2 # T.obs.layout THEN {"equiv-layout"} ELSE {})
        \cup (IF Has(T.obs, "sizeof") /\ ~SizeAgree(T, r, o) THEN {"sizeagree"} ELSE {})
        \cup (IF Has(T.obs, "forms") /\ ~FormsAgree(T.obs.forms, o) THEN {"forms"} ELSE {})
+       \cup (IF Has(T.obs, "plan") /\ T.type.k = "struct" /\ T.obs.plan # Shape(T.type, T.mode, GenPlan(T.type, T.mode, FALSE))
+             THEN {"DRIFT:plan"} ELSE {})       \* the generated source no longer has the shape the Plan model predicts (not a violation)
        \cup (IF Has(T.obs, "compiled") /\ T.obs.compiled # Compilable(T.type) THEN {"compilable"} ELSE {})
 
 \* a directly constructed value: dump, re-parse, refusal of numbers that do not fit
@@ -106,7 +108,15 @@ CommitClauses(T) ==
   (IF \A k \in 1..Len(T.cuts) : T.layouts[k] = LayoutObs(Pre(T.cuts[k]), T.mode) THEN {} ELSE {"stale-layout"})
   \cup (IF T.compiled = (T.req_compiled /\ Compilable(T.type)) THEN {} ELSE {"compilable"})
 
+\* C04: the declarative layout rule itself is bound to the C ABI - the record holds the offsets the platform's C compiler
+\* conventions (ctypes, native or _pack_ = 1) give the same declaration
+CtypesClauses(T) ==
+  LET l == LayoutObs(T.type, T.mode) IN
+  IF l.size = T.obs.layout.size /\ l.offs = T.obs.layout.offs /\ (T.mode.align => l.align = T.obs.layout.align)   \* a packed C struct has alignment 1
+  THEN {} ELSE {"SPECBUG:CLayout-differs-from-the-C-ABI"}
+
 Verdict(T) == CASE T.kind = "parse" -> ParseClauses(T)
+                [] T.kind = "ctypes" -> CtypesClauses(T)
                 [] T.kind = "commits" -> CommitClauses(T)
                 [] T.kind = "value" -> ValueClauses(T)
                 [] T.kind = "load"  -> LoadClauses(T)
